@@ -21,6 +21,7 @@ import (
 	"context"
 	"database/sql/driver"
 	"fmt"
+	"strconv"
 	"strings"
 
 	"github.com/arana-db/parser/ast"
@@ -542,14 +543,21 @@ func (i *insertExecutor) autoGeneratePks(execCtx *types.ExecContext, autoColumnN
 			return nil, err
 		}
 
-		if len(rows.Columns()) > 0 {
-			var curStep []driver.Value
+		defer rows.Close()
+		if cols := rows.Columns(); len(cols) > 0 {
+			curStep := make([]driver.Value, len(cols))
 			if err := rows.Next(curStep); err != nil {
 				return nil, err
 			}
 
-			if curStepInt, ok := curStep[0].(int64); ok {
-				step = curStepInt
+			// SHOW VARIABLES answers (Variable_name, Value): the step is the last column, as text
+			switch v := curStep[len(cols)-1].(type) {
+			case int64:
+				step = v
+			case []byte:
+				step, _ = strconv.ParseInt(string(v), 10, 64)
+			case string:
+				step, _ = strconv.ParseInt(v, 10, 64)
 			}
 		} else {
 			return nil, fmt.Errorf("query is empty")
